@@ -172,7 +172,8 @@ def class_cases(draw, tier):
     cls = draw(st.sampled_from(["monoidal", "rigid"]))
     spec = draw(connected_diagrams(
         cls, max_boxes=8 if big else 7, max_width=6,
-        names=draw(st.sampled_from([("a",), ("a", "b")]))))
+        names=draw(st.sampled_from([("a",), ("a", "b")])),
+        distinct_names=draw(st.booleans())))
     interp = draw(gen.interpretations([spec], max_dim=2))
     return {"d": spec, "left": draw(st.booleans()), "interp": interp,
             "picks": draw(st.lists(st.integers(0, 10 ** 6), min_size=12,
@@ -325,12 +326,17 @@ def enum_connected(tier):
     for dom, layers in shapes:
         if len(layers) < 2 or not specs.connected(dom, layers):
             continue
-        spec = {"cls": "monoidal", "dom": [["a", 0]] * dom, "layers": [
-            [{"k": "box", "name": "f%d" % k, "dom": [["a", 0]] * nd,
-              "cod": [["a", 0]] * nc, "dag": False}, off]
-            for k, (nd, nc, off) in enumerate(layers)]}
-        for left in (False, True):
-            yield {"d": spec, "left": left, "picks": [0] * 12}
+        for same in (False, True):   # distinct boxes / equal boxes
+            if same and len({(nd, nc) for nd, nc, _ in layers}) == len(
+                    layers):
+                continue             # no two boxes could be equal
+            spec = {"cls": "monoidal", "dom": [["a", 0]] * dom, "layers": [
+                [{"k": "box", "name": "f" if same else "f%d" % k,
+                  "dom": [["a", 0]] * nd, "cod": [["a", 0]] * nc,
+                  "dag": False}, off]
+                for k, (nd, nc, off) in enumerate(layers)]}
+            for left in (False, True):
+                yield {"d": spec, "left": left, "picks": [0] * 12}
 
 
 def check_enum(case):
